@@ -482,7 +482,7 @@ def oracle_table(case, names, res):
         return "len is not the size of the outermost domain"
     for j in range(len(doms[0])):
         exp = expected_prefix(case, names, [j])
-        if j >= len(res["items"]) or not same_result(exp, res["items"][j]) or not same_result(exp, res["values"][j]):
+        if j >= len(res["items"]) or j >= len(res["values"]) or not same_result(exp, res["items"][j]) or not same_result(exp, res["values"][j]):
             return "items/values do not pair each outer key with table[key]"
         c = dist_clause(res["items"][j])
         if c:
